@@ -8,7 +8,7 @@ Specification: `PdfVerif.Spec.PageTree`.
 
 Only property theorems live here (helper lemmas: `Lemmas/PageTree.lean`).
 -/
-import PdfVerif.Lemmas.PageGraph
+import PdfVerif.Lemmas.PageOrder
 
 namespace PdfVerif.Props.C04
 open PdfVerif PdfVerif.PageTree PdfVerif.Gen.PageTree PdfVerif.Gen.Utils
@@ -188,6 +188,68 @@ theorem C04_graph_inherit (g : Store) (catalog : Dict) (r fuel : Nat)
   have : id = r := by simpa [kidId] using hk.symm
   subst this
   exact ⟨path, h1, h2, by simpa using h3, by simpa using h4⟩
+
+/-- **Depth-first order on graphs, against an algorithm-independent specification.** Whatever the
+Kids graph (shared nodes, repeated kids, cycles, self loops, direct dictionaries), when the walk
+ends normally the indirect pages it yields are exactly `specOrder g r`: the Page nodes in the order
+in which the depth-first enumeration of *all simple Kids paths* from the root first arrives at
+them. That specification has no visited set and no state shared between branches (a branch ends
+only where it would return to one of its own ancestors); the visited set of the code is shown to
+be an optimisation that never changes the result. -/
+theorem C04_graph_order (g : Store) (catalog : Dict) (r : Nat)
+    (hroot : dget catalog "Pages" = some (.atom (.ref r)))
+    (herr : (treeWalk g (g.length + 1) catalog).err = none) :
+    (treeWalk g (g.length + 1) catalog).pages.filterMap (·.id) = specOrder g r := by
+  unfold treeWalk at herr ⊢
+  rw [hroot] at herr ⊢
+  simp only at herr ⊢
+  have h := (visit_order g (g.length + 1) (.atom (.ref r)) catalog [] []
+    (fun m hm => by simp at hm) (fun a ha => by simp at ha) herr).1
+  simpa [specOrder, kidLeaves, kidId] using h
+
+/-- The path budget of `specOrder` cuts no simple path: any larger budget lists the same. -/
+theorem C04_path_budget (g : Store) (r d : Nat) :
+    pathLeaves g (g.length + 1 + d) [] r = pathLeaves g (g.length + 1) [] r :=
+  pathLeaves_stable g [] r d
+
+/-- On a page tree the graph specification is the leaf order of the tree specification. -/
+theorem C04_order_specs_agree (g : Store) (t : PTree) (catalog : Dict)
+    (hE : Embeds g t) (hroot : dget catalog "Pages" = some (.atom (.ref t.id)))
+    (hcat : ∀ k ∈ INHERITABLE_ATTRS, dget catalog k = none)
+    (hnd : t.ids.Nodup) (hf : t.ids.length ≤ g.length + 1) :
+    specOrder g t.id = (specLeaves t []).map (·.1) := by
+  obtain ⟨he, hp⟩ := C04_order g t catalog (g.length + 1) hE hroot hcat hnd hf
+  rw [← C04_graph_order g catalog t.id hroot he]
+  have : ∀ (l : List RawPage) (m : List Nat), l.map (·.id) = m.map some → l.filterMap (·.id) = m := by
+    intro l
+    induction l with
+    | nil => intro m h; cases m with
+      | nil => rfl
+      | cons _ _ => simp at h
+    | cons x xs ih =>
+      intro m h
+      cases m with
+      | nil => simp at h
+      | cons y ys =>
+        simp only [List.map_cons, List.cons.injEq] at h
+        simp only [List.filterMap_cons, h.1]
+        rw [ih ys h.2]
+  apply this
+  rw [hp]; simp [List.map_map, Function.comp_def]
+
+/-- A cycle `2 → 3 → 2` with pages hanging behind the point where it closes, and a Page (6) shared
+by two nodes: the path enumeration arrives at 5 (below 3) before 4 and 6, as the walk does. -/
+example :
+    let g : Store :=
+      [(2, .node [("Type", .atom (.name "Pages")), ("Kids", .arr [.atom (.ref 3), .atom (.ref 4), .atom (.ref 6)])]),
+       (3, .node [("Type", .atom (.name "Pages")), ("Kids", .arr [.atom (.ref 2), .atom (.ref 5), .atom (.ref 6)])]),
+       (4, .node [("Type", .atom (.name "Page"))]),
+       (5, .node [("Type", .atom (.name "Page"))]),
+       (6, .node [("Type", .atom (.name "Page"))])]
+    pathLeaves g 6 [] 2 = [5, 6, 4, 6] ∧ specOrder g 2 = [5, 6, 4] ∧
+    (treeWalk g 6 [("Pages", .atom (.ref 2))]).err = none ∧
+    (treeWalk g 6 [("Pages", .atom (.ref 2))]).pages.map (·.id) = [some 5, some 6, some 4] := by
+  decide
 
 /-- A Page (6) shared by two Pages nodes with different Rotate: it is yielded once, with the Rotate
 of the node through which it is reached first (3), not of the later one (4). -/
